@@ -120,7 +120,7 @@ def chunkings(n, rng, tier):
         cs.append("15,2")
         cs.append("1,16")
         cs.append("16,1")
-    k = 1 if tier == "quick" else 4
+    k = 1 if tier == "quick" else 8
     for _ in range(k):
         lens, left = [], n
         while left > 0 and len(lens) < 12:
@@ -279,14 +279,14 @@ def gen_C05(tier, rng):
         for fill in (0, 255):
             yield (f"poly.mac {'ff' * 32} - {hx(bytes([fill]) * n)}", "len0-80.fill")
     # 3. model-guided wrap-around: pre-final accumulator in [p, 2^130)
-    for key, msg, off in wrap_search(rng, 60 if quick else 600):
+    for key, msg, off in wrap_search(rng, 60 if quick else 3000):
         for c in (["-"] if quick else chunkings(len(msg), rng, "quick")[:3]):
             yield (f"poly.mac {hx(key)} {c} {hx(msg)}", f"wrap.h=p+{off}")
     # 4. maximal carries
-    for key, msg in maxcarry_blocks(rng, 20 if quick else 300):
+    for key, msg in maxcarry_blocks(rng, 20 if quick else 2000):
         yield (f"poly.mac {hx(key)} - {hx(msg)}", "maxcarry")
     # 5. random keys/messages up to 4 KiB, random chunkings
-    for _ in range(60 if quick else 1500):
+    for _ in range(60 if quick else 6000):
         n = rng.choice([rng.randrange(0, 200), rng.randrange(0, 4097), 4096, 4095, 1024])
         key, msg = rng.rbytes(32), rng.rbytes(n)
         lens, left = [], n
@@ -358,6 +358,13 @@ def gen_C09(tier, rng):
     for h in rec([], depth):
         key = keys[rng.randrange(len(keys))]
         yield (f"poly.hist {hx(key)} {';'.join(sym(s) for s in h)}", f"hist.depth{len(h)}")
+    if not quick:
+        # every history of depth exactly 6 over a reduced alphabet (partial / block-multiple input, both results,
+        # reset, clone, swap)
+        import itertools
+        for h in itertools.product(["i5", "i16", "R", "W", "r", "c", "x"], repeat=6):
+            key = keys[rng.randrange(len(keys))]
+            yield (f"poly.hist {hx(key)} {';'.join(sym(s) for s in h)}", "hist.depth6")
     # random histories of depth 6 (thorough: many), richer lengths
     rich = ["i0", "i1", "i15", "i16", "i17", "i31", "i32", "i33", "i48", "i64", "i80", "R", "R", "W", "W", "r", "c", "x",
             "W15", "W17", "W0"]
